@@ -19,6 +19,42 @@ RULE = ("per enum: leaves(V) == {(CLASS_V, INSTR_V)}; leaf action = V(zvt_deseri
 PARSER = "zvt_builder::ZvtParser"
 
 
+def _accessor_of(tr, l, fields):
+    """(k, call term) when local l - or, for a tuple `(a.first(), a.get(1))`, its component `fields` - is the Option that
+    `bytes.first()` (k = 0) / `bytes.get(k)` of parameter 1 returned"""
+    d = tr.single_def(l)
+    for _ in range(4):
+        if d is None:
+            return None
+        if d[2] == "assign" and d[3]["rv"]["r"] == "agg" and d[3]["rv"]["kind"] == "tuple" and len(fields) >= 1 and \
+                fields[0] < len(d[3]["rv"]["ops"]):
+            q = op_place(d[3]["rv"]["ops"][fields[0]])
+            if q is None or q["p"]:
+                return None
+            fields = fields[1:]
+            d = tr.single_def(q["l"])
+            continue
+        if d[2] == "assign" and d[3]["rv"]["r"] == "use" and not d[3]["p"]["p"]:
+            q = op_place(d[3]["rv"]["o"])
+            if q is None or q["p"]:
+                return None
+            d = tr.single_def(q["l"])
+            continue
+        break
+    if d is None or d[2] != "call" or fields:
+        return None
+    n = callee(d[3])
+    if not n.endswith(("<impl [T]>::first", "<impl [T]>::get")) or not d[3]["args"]:
+        return None
+    s_ = tr.value(d[3]["args"][0])
+    if not ((s_.kind == "ref" and s_.place.strip_deref() == NPlace(1, [])) or (s_.kind == "place" and s_.place.strip_deref() == NPlace(1, []))):
+        return None
+    if n.endswith("::first"):
+        return (0, d[3])
+    k = tr.const_int(d[3]["args"][1]) if len(d[3]["args"]) == 2 else None
+    return (k, d[3]) if isinstance(k, int) else None
+
+
 def byte_index(tr, body, operand, depth=0):
     """i if the operand denotes bytes[i] of parameter 1 (through tuples / copies)."""
     if depth > 6:
@@ -27,6 +63,13 @@ def byte_index(tr, body, operand, depth=0):
     if p is None:
         return None
     np = tr.nplace(p)
+    # `*(opt as Some).0` with opt = bytes.first() / bytes.get(k), possibly a component of a tuple of such options
+    pj = [e for e in np.p if e != "deref"]
+    if np.l != 1 and len(pj) >= 2 and isinstance(pj[-1], tuple) and pj[-1][0] == "f" and pj[-1][1] == 0 and \
+            isinstance(pj[-2], tuple) and pj[-2][0] in ("dc", "variant") and all(isinstance(e, tuple) and e[0] == "f" for e in pj[:-2]):
+        acc = _accessor_of(tr, np.l, [e[1] for e in pj[:-2]])
+        if acc is not None:
+            return acc[0]
     # direct index projection
     if np.l == 1:
         idx = [e for e in np.p if isinstance(e, tuple) and e[0] in ("idx", "cidx")]
@@ -69,6 +112,13 @@ def len_test(tr, body, operand):
     v = tr.value(operand)
     # `bytes.first_chunk::<M>()` is Some exactly when len >= M: its discriminant (Some = 1) is that test
     if v.kind == "rv" and v.rv["r"] == "discr":
+        # `bytes.get(k)` / `bytes.first()` is Some exactly when len >= k + 1
+        dp = tr.nplace(v.rv["p"])
+        pj_ = [e for e in dp.p if e != "deref"]
+        if all(isinstance(e, tuple) and e[0] == "f" for e in pj_):
+            acc = _accessor_of(tr, dp.l, [e[1] for e in pj_])
+            if acc is not None:
+                return (acc[0] + 1, False)
         src = tr.value({"c": v.rv["p"]})
         if src.kind == "call" and callee(src.term).endswith(("<impl [T]>::first_chunk", "<impl [T]>::split_first_chunk")):
             s_ = tr.value(src.term["args"][0])
@@ -181,6 +231,22 @@ def enumerate_leaves(body, tr):
                 b2.short = else_cond if true_means_short else not else_cond
                 if box.short is None or box.short == b2.short:
                     go(t["else"], b2, evs, depth + 1)
+                return
+            if lt is not None and lt[0] == 1:
+                # a test of `len >= 1` (`bytes.first()` is Some): its negative edge is a short input; the positive edge
+                # says nothing about the second byte yet
+                true_means_short = lt[1]
+                edges = [(v != 0, tb) for v, tb in t["targets"]] + [(any(v == 0 for v, _ in t["targets"]), t["else"])]
+                for cond, tb in edges:
+                    if body.blocks[tb]["term"]["t"] == "unreachable":
+                        continue
+                    is_short = cond if true_means_short else not cond
+                    b2 = box.copy()
+                    if is_short:
+                        if box.short is False:
+                            continue
+                        b2.short = True
+                    go(tb, b2, evs, depth + 1)
                 return
             i = byte_index(tr, body, t["d"])
             if i in (0, 1):
